@@ -106,6 +106,9 @@ def run(ctx):
         I = w.I
         if arrays is None:
             _explicit(ctx, w, mats, rho, ws, names, label, site, csite)
+            # ... and a calculator over a single material (nothing to mix: a shortcut must still leave its tables alone)
+            w1_, _lam1, mats1_ = _setup(ctx, False)
+            _explicit(ctx, w1_, mats1_[:1], rho, ws[:1], names, label + ", one material", site, csite)
             continue
         calc = I.call(I.global_name("nsf", "neutron_composite_sld"), [list(mats)], {"wavelength": lam})
         csite = _calc_site(ctx, I, calc, site)
